@@ -121,11 +121,14 @@ func (e *esdtNFTMultiTransfer) ProcessBuiltinFunction(
 	if err != nil {
 		return nil, err
 	}
-	if len(vmInput.Arguments) < 5 {
+	if len(vmInput.Arguments) < 4 {
 		return nil, ErrInvalidArguments
 	}
 
 	if bytes.Equal(vmInput.CallerAddr, vmInput.RecipientAddr) {
+		if len(vmInput.Arguments) < 5 {
+			return nil, ErrInvalidArguments
+		}
 		return e.processESDTNFTMultiTransferOnSenderShard(acntSnd, vmInput)
 	}
 
